@@ -5,6 +5,10 @@ ALL = ["C%02d" % i for i in range(1, 21)]
 PENDING = "check under construction in this session; will be claimed once it runs quietly on the unchanged tree"
 # id -> (level, technique, level text, level note, design ref)
 CLAIMED = {
+ "C01": ("exploration", "stateful property-based testing (proptest): generated swap histories against the real vAMM entry points, invariant oracle over the history in 256-bit arithmetic",
+         "generated reserve pairs and swap_input/swap_output histories (incl. return-to-earlier-position swaps) are executed through the vAMM's instantiate/execute/query; scaled product monotonicity, base+net-position conservation and the return clause are recomputed independently after every accepted swap",
+         "mock dependencies stand in for the chain; return clause asserted only while base reserve >= 1 unit (see DESIGN C01)",
+         "DESIGN.md §3 C01"),
  "C19": ("exploration", "property-based testing (proptest): generated operand pairs vs exact 256-bit reference arithmetic",
          "every public operation of Integer is compared with exact sign-magnitude big-integer arithmetic on generated operand pairs biased to zero, equal magnitudes and the 128-bit boundary; the space (2^258 pairs) cannot be enumerated, so this is search, not proof",
          "trusts cosmwasm_std::Uint256 arithmetic used by the reference; values are interpreted as (-1)^negative * value",
